@@ -46,7 +46,7 @@ class Env:
 BUILTIN_NAMES = {
     "len", "isinstance", "getattr", "callable", "max", "min", "float", "int", "str", "range", "dict",
     "set", "tuple", "type", "hasattr", "sum", "bool", "list", "object", "super", "repr", "abs", "setattr",
-    "issubclass", "iter", "next", "sorted", "any", "all", "enumerate", "zip",
+    "issubclass", "iter", "next", "sorted", "any", "all", "enumerate", "zip", "frozenset",
 }
 
 
@@ -244,7 +244,9 @@ class ExprMixin:
         return list(self.e_Tuple(node, env))
 
     def e_Set(self, node, env):
-        vals = [self.eval(e, env) for e in node.elts]
+        return self.eval_set_items([self.eval(e, env) for e in node.elts])
+
+    def eval_set_items(self, vals):
         if vals and all(isinstance(v, EnumVal) for v in vals) and len({v.cls.key for v in vals}) == 1:
             ci = vals[0].cls
             names = [self.enum_concrete_name(v) for v in vals]
@@ -1038,7 +1040,8 @@ class ExprMixin:
             if len(node.generators) != 1:
                 raise Unsupported("nested comprehension")
             g = node.generators[0]
-            for item in self.iterate(self.eval(g.iter, env)):
+            src = v.pre_iter if getattr(v, "pre_iter", None) is not None else self.eval(g.iter, env)
+            for item in self.iterate(src):
                 sub = Env(env.func, env.module, parent=env)
                 self.assign_target(g.target, item, sub)
                 if all(self.is_true(self.eval(c, sub)) for c in g.ifs):
